@@ -33,8 +33,37 @@ def error_problems(src: str, o: dict):
     return probs
 
 
+def parse_file_outcome(src: str, variant: str = "shipped"):
+    """The same through parse_file (a temporary UTF-8 file outside /repo, /verif and /tmp)."""
+    import os
+    import tempfile
+    from pathlib import Path
+
+    fd, name = tempfile.mkstemp(prefix="xv.c11.", suffix=".py", dir="/var/tmp")
+    try:
+        with os.fdopen(fd, "wb") as f:
+            f.write(src.encode("utf-8"))
+        try:
+            tree = impl.parser_cls(variant).parse_file(Path(name))
+        except BaseException as e:  # noqa: BLE001
+            return impl.err_dict(e)
+        return {"k": "tree" if tree is not None else "none"}
+    finally:
+        os.unlink(name)
+
+
 def check_one(src: str, mode: str = "exec", variant: str = "shipped", py_version=None):
-    o = impl.parse(src, mode, py_version=py_version, variant=variant)
+    if mode == "file":
+        try:
+            src.encode("utf-8")
+        except UnicodeEncodeError:
+            return {"skip": "unencodable"}
+        o = parse_file_outcome(src, variant)
+        if o["k"] == "err":
+            # universal newlines: compare against the text as the file is read
+            src = src.replace("\r\n", "\n").replace("\r", "\n")
+    else:
+        o = impl.parse(src, mode, py_version=py_version, variant=variant)
     if o["k"] != "err":
         return {"skip": o["k"]}
     probs = error_problems(src, o)
@@ -78,6 +107,12 @@ def build_inputs(tier):
         cases.append(("table", s, "exec", None))
         cases.append(("table", "ok = 1\n\n" + s, "exec", None))
         cases.append(("table", s + "\nlater = 2\n", "exec", None))
+    for sep in ["\x0c", "\x0b", "\x1c", "\x85", "\u2028"]:
+        for s in INVALID_SNIPPETS[:40]:
+            cases.append(("file-oddsep", f"import os  # {sep} c\n{sep}\n" + s, "file", None))
+    for s in INVALID_SNIPPETS:
+        cases.append(("file", s, "file", None))
+        cases.append(("file", "ok = 1\n\n" + s, "file", None))
     for s in ["class A[T]: pass\n", "type X = int\n", "try:\n  pass\nexcept* E:\n  pass\n", "def f[T](x): pass\n", "x = 1\ntype Y[T] = T\n"]:
         for v in [(3, 8), (3, 10), (3, 11)]:
             cases.append(("version", s, "exec", v))
